@@ -132,3 +132,24 @@ Definition ts_update_local_frame_advantage (dbg : bool)
 Definition ts_clamp_i16 (x : Z) : Z := Z.max TS_I16_MIN (Z.min TS_I16_MAX x).
 Definition ts_report_frame_advantage (adv : Z) : res Z :=
   let c := ts_clamp_i16 adv in if ts_in_i16 c then Ok c else Panic.
+
+(* ---------- the recommendation gate (P2PSession::check_wait_recommendation) ----------
+   state: next_recommended_sleep (0 when the session is built); one call per advance_frame with the
+   current frame [cf] and frames_ahead [fa] (both i32).  The event carries fa converted with
+   u32::try_from(..).expect(..): a negative fa at that point would be a panic. *)
+Definition gate_init : Z := 0.
+Definition gate_step (next cf fa : Z) : res (Z * option Z) :=
+  if (next <? cf) && (MIN_RECOMMENDATION <=? fa)
+  then (if fa <? 0 then Panic else Ok (cf + RECOMMENDATION_INTERVAL, Some fa))
+  else Ok (next, None).
+
+(* a run of calls; the trace lists (cf, fa, event); a panic ends it *)
+Fixpoint gate_run (next : Z) (calls : list (Z * Z)) : list (Z * Z * option Z) :=
+  match calls with
+  | [] => []
+  | (cf, fa) :: r =>
+    match gate_step next cf fa with
+    | Ok (n', o) => (cf, fa, o) :: gate_run n' r
+    | _ => []
+    end
+  end.
